@@ -10,12 +10,13 @@ from clikit.args.argv_args import ArgvArgs
 from clikit.args.default_args_parser import DefaultArgsParser
 
 from harness import pfmt
+from vf.sym import untraced
 
 PROPERTY = "C01"
 FUNCTIONS = ["DefaultArgsParser.parse (+ all helpers)", "Args.arguments/options/option/argument/is_option_set/is_argument_set/set_option/set_argument",
              "Option.parse / Argument.parse", "ArgsFormat.get_option/get_argument/has_*", "utils.string.parse_*"]
 PART = {}
-BOUNDS = {"quick": "8 format skeletons (value mode x type x nullable x short name, required/optional/multi-valued typed arguments, 2 command names with aliases, base format); "
+BOUNDS = {"quick": "10 format skeletons (two of them inside a three-level tree of formats whose sibling was used first; value mode x type x nullable x short name, required/optional/multi-valued typed arguments, 2 command names with aliases, base format); "
                    "<= 3 options given, values = 1-2 symbolic characters over {a,1,=,-,space} or str(n) for |n| <= 12 (quick) / 99 (thorough) or boolean/float/null texts, 4 spellings, options inserted at a symbolic place among <= 3 positionals, "
                    "command names spelled by name / alias / omitted, optional '--' followed by 1 token that may start with '-', strict and lenient",
           "thorough": "same with larger budgets, two different places for the options, 2 tail tokens"}
@@ -75,7 +76,7 @@ def _typed(o_typ, nullable, s, n, bi, usenull):
 
 
 def _dims():
-    skel = pfmt.SKELS[PART["skel"]]
+    skel = pfmt.SKELS_ALL[PART["skel"]]
     nopts = min(3, len(skel.all_opts))
     has_multi = any(a.kind.startswith("multi") for a in skel.all_args)
     maxpos = len(skel.all_args) + (1 if has_multi else 0)
@@ -118,7 +119,7 @@ def line_values(s: str, n: int, bi: int, usenull: bool, p1: str, p2: str, n2: in
 
 
 def _line(given, sp, place, place2, s, n, bi, usenull, novalue, npos, p1, p2, n2, cmd, dd, tail, tail2, lenient):
-    skel = pfmt.SKELS[PART["skel"]]
+    skel = pfmt.SKELS_ALL[PART["skel"]]
     opts, args, cmds = skel.all_opts, skel.all_args, skel.all_cmds
     sp = _conc_small(sp, 4)
     given = _conc_small(given, 8)
@@ -231,6 +232,8 @@ def _line(given, sp, place, place2, s, n, bi, usenull, novalue, npos, p1, p2, n2
         tokens.append("--")
         tokens += texts[n_before:] + extra_tail
     # ---- parse and compare
+    for wskel, wtokens in skel.warm:         # another format of the same tree has been used before (concrete line: run with the tracer off)
+        untraced(_warm, wskel.fmt, wtokens)
     res = DefaultArgsParser().parse(ArgvArgs(["prog"] + tokens), skel.fmt, lenient)
     if res.options(False) != exp_opts or res.arguments(False) != exp_args:
         return False
@@ -259,6 +262,10 @@ def _line(given, sp, place, place2, s, n, bi, usenull, novalue, npos, p1, p2, n2
     return True
 
 
+def _warm(fmt, tokens):
+    DefaultArgsParser().parse(ArgvArgs(["prog"] + list(tokens)), fmt, True)
+
+
 def pfmt_parse(o, text):
     return {"int": int, "float": float, "str": str, "bool": lambda t: t in ("true", "1", "yes", "on")}[o.typ](text)
 
@@ -280,11 +287,11 @@ def conditions(tier):
     quick = tier == "quick"
     t = 100 if quick else 600
     conds = []
-    for sk in sorted(pfmt.SKELS):
-        for sp in range(4):
+    for sk in sorted(pfmt.SKELS_ALL, key=lambda k: int(k[1:])):
+        for sp in (range(4) if sk in pfmt.SKELS else (0, 3)):       # (the tree skeletons only have a flag option: two spelling styles suffice)
             for fam in ("structure", "values"):
                 conds.append({"name": "line[%s,sp%d,%s]" % (sk, sp, fam), "fn": line_structure if fam == "structure" else line_values, "timeout": t,
-                              "part": {"skel": sk, "sp": sp, "two_places": not quick, "tail2": not quick, "family": fam, "nmax": 12 if quick else 99},
+                              "part": {"skel": sk, "sp": sp, "two_places": not quick, "tail2": not quick, "family": fam, "nmax": (12 if quick else 99) if sk in pfmt.SKELS else (3 if quick else 12)},
                               "bounds": ("format %s, spelling style %d (%s); " % (sk, sp, ["--n=v", "--n v", "-nv", "-n v"][sp])) + (
                                   "STRUCTURE family: symbolic = which options are given, their place(s) among the positionals, number of positionals, command-name spelling (name/alias/mixed/omitted), '--' and where, value-less optional option, leniency; values pinned"
                                   if fam == "structure" else
